@@ -560,4 +560,268 @@ theorem acceptBytes_interp (n : Nat) (p : Prog) (st : St) (s : Sink Nat) (h : Bu
     (fun o x h => acceptBytes_writeAllAux n x.length o x h) st s h
 
 
+/-! ### Two arbitrary devices in step -/
+
+/-- Outcome of a render on device 1 against the same render on a reference device 2 that never
+fails: in step (`R`), or device 1 failed with the I/O error and `F` relates what it holds to
+what the reference run went on to produce. -/
+def Sim2 {δ1 δ2 : Type} (R F : δ1 → δ2 → Prop) (r1 : Res × St × δ1) (r2 : Res × St × δ2) : Prop :=
+  (r1.1 = r2.1 ∧ r1.2.1 = r2.2.1 ∧ R r1.2.2 r2.2.2) ∨ (r1.1 = .io ∧ F r1.2.2 r2.2.2)
+
+/-- one `write_all` on both devices, started in step -/
+def StepOk {δ1 δ2 : Type} (D1 : Device δ1) (D2 : Device δ2) (R F : δ1 → δ2 → Prop) : Prop :=
+  ∀ o1 o2 x, R o1 o2 →
+    (((D1.writeAll o1 x).2 = true ∧ R (D1.writeAll o1 x).1 (D2.writeAll o2 x).1) ∨
+     ((D1.writeAll o1 x).2 = false ∧ F (D1.writeAll o1 x).1 (D2.writeAll o2 x).1))
+
+structure RefDev {δ1 δ2 : Type} (D2 : Device δ2) (F : δ1 → δ2 → Prop) : Prop where
+  /-- the reference device never fails -/
+  ok : ∀ o x, (D2.writeAll o x).2 = true
+  /-- what is known after a failure stays true while the reference run goes on -/
+  pers : ∀ o1 o2 x, F o1 o2 → F o1 (D2.writeAll o2 x).1
+
+theorem ref_chunks {δ1 δ2 : Type} (D2 : Device δ2) (F : δ1 → δ2 → Prop) (h : RefDev D2 F)
+    (cs : List Bytes) : ∀ (o1 : δ1) (o2 : δ2),
+      (D2.writeChunks o2 cs).2 = true ∧ (F o1 o2 → F o1 (D2.writeChunks o2 cs).1) := by
+  induction cs with
+  | nil => intro o1 o2; exact ⟨rfl, id⟩
+  | cons c cs ih =>
+    intro o1 o2
+    simp only [Device.writeChunks]
+    have h1 := h.ok o2 c
+    have h2 := h.pers o1 o2 c
+    generalize D2.writeAll o2 c = res at h1 h2
+    obtain ⟨o2', ok⟩ := res
+    simp only at h1 h2
+    subst h1
+    exact ⟨(ih o1 o2').1, fun hf => (ih o1 o2').2 (h2 hf)⟩
+
+/-- the reference run goes on: whatever `F` says stays true -/
+theorem ref_interp {δ1 δ2 : Type} (D2 : Device δ2) (F : δ1 → δ2 → Prop) (h : RefDev D2 F)
+    (p : Prog) (st : St) (o1 : δ1) (o2 : δ2) (hf : F o1 o2) : F o1 (interp D2 p st o2).2.2 :=
+  interp_preserves p D2 (fun a b => F o1 a → F o1 b) (fun _ h => h) (fun _ _ _ h1 h2 h => h2 (h1 h))
+    (fun o x hf => h.pers o1 o x hf) st o2 hf
+
+theorem sim2_chunks {δ1 δ2 : Type} (D1 : Device δ1) (D2 : Device δ2) (R F : δ1 → δ2 → Prop)
+    (hW : StepOk D1 D2 R F) (hR : RefDev D2 F) (cs : List Bytes) :
+    ∀ o1 o2, R o1 o2 →
+      (((D1.writeChunks o1 cs).2 = true ∧ R (D1.writeChunks o1 cs).1 (D2.writeChunks o2 cs).1) ∨
+       ((D1.writeChunks o1 cs).2 = false ∧ F (D1.writeChunks o1 cs).1 (D2.writeChunks o2 cs).1)) := by
+  induction cs with
+  | nil => intro o1 o2 h; exact Or.inl ⟨rfl, h⟩
+  | cons c cs ih =>
+    intro o1 o2 h
+    simp only [Device.writeChunks]
+    have hcase := hW o1 o2 c h
+    have h2 := hR.ok o2 c
+    generalize D1.writeAll o1 c = res1 at hcase
+    generalize D2.writeAll o2 c = res2 at h2 hcase
+    obtain ⟨o1', ok1⟩ := res1
+    obtain ⟨o2', ok2⟩ := res2
+    simp only at h2 hcase
+    subst h2
+    simp only
+    rcases hcase with ⟨e1, e2⟩ | ⟨e1, e2⟩
+    · subst e1
+      exact ih o1' o2' e2
+    · subst e1
+      simp only
+      right
+      exact ⟨trivial, (ref_chunks D2 F hR cs o1' o2').2 e2⟩
+
+theorem sim2 {δ1 δ2 : Type} (D1 : Device δ1) (D2 : Device δ2) (R F : δ1 → δ2 → Prop)
+    (hW : StepOk D1 D2 R F) (hR : RefDev D2 F) (p : Prog) :
+    ∀ (st : St) (o1 : δ1) (o2 : δ2), R o1 o2 → Sim2 R F (interp D1 p st o1) (interp D2 p st o2) := by
+  induction p with
+  | halt => intro st o1 o2 h; left; exact ⟨rfl, rfl, h⟩
+  | fail c => intro st o1 o2 h; left; exact ⟨rfl, rfl, h⟩
+  | panic c => intro st o1 o2 h; left; exact ⟨rfl, rfl, h⟩
+  | write chunks k ih =>
+    intro st o1 o2 h
+    simp only [interp]
+    split
+    · rw [vec_writeChunks]
+      exact ih _ o1 o2 h
+    · have hc := sim2_chunks D1 D2 R F hW hR chunks o1 o2 h
+      have h2 := (ref_chunks D2 F hR chunks o1 o2).1
+      generalize D1.writeChunks o1 chunks = res1 at hc
+      generalize D2.writeChunks o2 chunks = res2 at h2 hc
+      obtain ⟨o1', ok1⟩ := res1
+      obtain ⟨o2', ok2⟩ := res2
+      simp only at h2 hc
+      subst h2
+      simp only
+      rcases hc with ⟨e1, e2⟩ | ⟨e1, e2⟩
+      · subst e1; exact ih st o1' o2' e2
+      · subst e1
+        right
+        exact ⟨rfl, ref_interp D2 F hR k st o1' o2' e2⟩
+  | capture k ih => intro st o1 o2 h; simp only [interp]; exact ih _ o1 o2 h
+  | endCapture k ih =>
+    intro st o1 o2 h
+    simp only [interp]
+    split
+    · left; exact ⟨rfl, rfl, h⟩
+    · exact ih _ _ o1 o2 h
+  | incl body k ihb ihk =>
+    intro st o1 o2 h
+    simp only [interp]
+    split
+    · have hb := ihb St.fresh o1 o2 h
+      generalize interp D1 body St.fresh o1 = res1 at hb
+      generalize interp D2 body St.fresh o2 = res2 at hb
+      obtain ⟨r1, st1, s1⟩ := res1
+      obtain ⟨r2, st2, b2⟩ := res2
+      rcases hb with ⟨e1, e2, e3⟩ | ⟨e1, e2⟩
+      · simp only at e1 e2 e3
+        subst e1
+        cases r1 with
+        | ok => simp only; exact ihk st s1 b2 e3
+        | io => left; exact ⟨rfl, rfl, e3⟩
+        | fail c => left; exact ⟨rfl, rfl, e3⟩
+        | panic c => left; exact ⟨rfl, rfl, e3⟩
+      · simp only at e1 e2
+        subst e1
+        simp only
+        right
+        refine ⟨rfl, ?_⟩
+        cases r2 with
+        | ok => simp only; exact ref_interp D2 F hR k st s1 b2 e2
+        | io => exact e2
+        | fail c => exact e2
+        | panic c => exact e2
+    · rename_i buf rest _
+      generalize interp vecDev body St.fresh buf = res
+      obtain ⟨r, st', o'⟩ := res
+      cases r with
+      | ok => simp only; exact ihk _ o1 o2 h
+      | io => left; exact ⟨rfl, rfl, h⟩
+      | fail c => left; exact ⟨rfl, rfl, h⟩
+      | panic c => left; exact ⟨rfl, rfl, h⟩
+  | renderBlock name body k ihb ihk =>
+    intro st o1 o2 h
+    simp only [interp]
+    split
+    · generalize interp vecDev body { st with captureBuffers := [] } [] = res
+      obtain ⟨r, st', o'⟩ := res
+      cases r with
+      | ok => simp only; exact ihk _ o1 o2 h
+      | io => left; exact ⟨rfl, rfl, h⟩
+      | fail c => left; exact ⟨rfl, rfl, h⟩
+      | panic c => left; exact ⟨rfl, rfl, h⟩
+    · have hb := ihb st o1 o2 h
+      generalize interp D1 body st o1 = res1 at hb
+      generalize interp D2 body st o2 = res2 at hb
+      obtain ⟨r1, st1, s1⟩ := res1
+      obtain ⟨r2, st2, b2⟩ := res2
+      rcases hb with ⟨e1, e2, e3⟩ | ⟨e1, e2⟩
+      · simp only at e1 e2 e3
+        subst e1 e2
+        cases r1 with
+        | ok => simp only; exact ihk st1 s1 b2 e3
+        | io => left; exact ⟨rfl, rfl, e3⟩
+        | fail c => left; exact ⟨rfl, rfl, e3⟩
+        | panic c => left; exact ⟨rfl, rfl, e3⟩
+      · simp only at e1 e2
+        subst e1
+        simp only
+        right
+        refine ⟨rfl, ?_⟩
+        cases r2 with
+        | ok => simp only; exact ref_interp D2 F hR k st2 s1 b2 e2
+        | io => exact e2
+        | fail c => exact e2
+        | panic c => exact e2
+  | callSuper body k ihb ihk =>
+    intro st o1 o2 h
+    simp only [interp]
+    generalize interp vecDev body { st with captureBuffers := [] } [] = res
+    obtain ⟨r, st', o'⟩ := res
+    cases r with
+    | ok => simp only; exact ihk _ _ o1 o2 h
+    | io => left; exact ⟨rfl, rfl, h⟩
+    | fail c => left; exact ⟨rfl, rfl, h⟩
+    | panic c => left; exact ⟨rfl, rfl, h⟩
+  | component body k ihb ihk =>
+    intro st o1 o2 h
+    simp only [interp]
+    generalize interp vecDev body St.fresh [] = res
+    obtain ⟨r, st', o'⟩ := res
+    cases r with
+    | ok => simp only; exact ihk _ _ o1 o2 h
+    | io => left; exact ⟨rfl, rfl, h⟩
+    | fail c => left; exact ⟨rfl, rfl, h⟩
+    | panic c => left; exact ⟨rfl, rfl, h⟩
+
+
+/-! ### The call-index writer against the trace of `write_all` calls -/
+
+/-- Reference device recording the non-empty `write_all` calls (each is exactly one `write`
+call on a writer that accepts whole buffers). -/
+def traceDev : Device (List Bytes) := { writeAll := fun t x => (if x = [] then t else t ++ [x], true) }
+
+theorem failAtCall_writeAll (k : Nat) (s : Sink Nat) (x : Bytes) :
+    writeAll (failAtCall k) s x =
+      if x = [] then (s, true)
+      else if s.st < k then
+        ({ st := s.st + 1, accepted := s.accepted ++ x, failed := s.failed, calls := s.calls + 1 }, true)
+      else ({ s with st := s.st + 1, failed := true, calls := s.calls + 1 }, false) := by
+  cases x with
+  | nil => simp [writeAll, writeAllAux]
+  | cons b bs =>
+    simp only [writeAll, List.length_cons, writeAllAux, failAtCall, reduceCtorEq, if_false]
+    by_cases h : s.st < k
+    · simp [h, writeAllAux]
+    · simp [h]
+
+def CallR (k : Nat) (s : Sink Nat) (t : List Bytes) : Prop :=
+  s.failed = false ∧ s.st = t.length ∧ s.accepted = t.flatten ∧ t.length ≤ k
+
+def CallF (k : Nat) (s : Sink Nat) (t : List Bytes) : Prop :=
+  s.failed = true ∧ s.accepted = (t.take k).flatten ∧ k < t.length
+
+theorem call_stepOk (k : Nat) : StepOk (userDev (failAtCall k)) traceDev (CallR k) (CallF k) := by
+  intro s t x ⟨h1, h2, h3, h4⟩
+  simp only [userDev, traceDev, failAtCall_writeAll]
+  by_cases hx : x = []
+  · left; simp [hx, CallR, h1, h2, h3, h4]
+  · simp only [hx, if_false]
+    by_cases hk : s.st < k
+    · left
+      simp only [hk, if_true, true_and]
+      refine ⟨h1, by simp [h2], by simp [h3], by simp; omega⟩
+    · right
+      simp only [hk, if_false, true_and]
+      have hkt : t.length = k := by omega
+      refine ⟨rfl, ?_, by simp; omega⟩
+      simp only
+      rw [h3, List.take_append_of_le_length (by omega), List.take_of_length_le (by omega)]
+
+theorem call_refDev (k : Nat) : RefDev (δ1 := Sink Nat) traceDev (CallF k) := by
+  refine ⟨fun _ _ => rfl, ?_⟩
+  intro s t x ⟨h1, h2, h3⟩
+  simp only [traceDev]
+  by_cases hx : x = []
+  · simp [hx, CallF, h1, h2, h3]
+  · simp only [hx, if_false]
+    refine ⟨h1, ?_, by simp; omega⟩
+    rw [h2, List.take_append_of_le_length (by omega)]
+
+/-- `Vec` against the trace: the bytes are the concatenation of the recorded calls. -/
+theorem trace_vec (p : Prog) (st : St) (t : List Bytes) (b : Bytes) (h : t.flatten = b) :
+    (interp traceDev p st t).1 = (interp vecDev p st b).1 ∧
+    (interp traceDev p st t).2.2.flatten = (interp vecDev p st b).2.2 := by
+  have hs : StepOk traceDev vecDev (fun t b => t.flatten = b) (fun _ _ => False) := by
+    intro t b x h
+    left
+    simp only [traceDev, vecDev, true_and]
+    by_cases hx : x = []
+    · simp [hx, h]
+    · simp [hx, h]
+  have hr : RefDev (δ1 := List Bytes) vecDev (fun _ _ => False) := ⟨fun _ _ => rfl, fun _ _ _ h => h⟩
+  rcases sim2 traceDev vecDev _ _ hs hr p st t b h with ⟨e1, _, e3⟩ | ⟨_, e2⟩
+  · exact ⟨e1, e3⟩
+  · exact absurd e2 id
+
+
 end Tera.W
